@@ -157,6 +157,11 @@ def build(targets=None):
     return rc, out
 
 
+# properties whose streams depend on the implementation's set/dict iteration
+# orders (sifting): the thorough tier repeats the quick streams under other hash seeds
+HASHSEED_PROPS = {'C06', 'C07', 'C08', 'C09', 'C14', 'C17'}
+
+
 def property_files(pid):
     """Properties/<pid>.v and Properties/<pid><suffix>.v (e.g. C04a.v, C19_x.v)"""
     listed = [l.strip() for l in open(os.path.join(COQ, '_CoqProject'))]
@@ -353,6 +358,8 @@ def main(argv=None):
                     default=int(os.environ.get('VERIF_SEED', '0') or 0))
     ap.add_argument('--replay')
     ap.add_argument('--no-build', action='store_true')
+    ap.add_argument('--sub', default='',
+                    help='internal: secondary run under another PYTHONHASHSEED; tag of its replay files')
     a = ap.parse_args(argv)
     pid = a.pid
     if a.tier not in ('quick', 'thorough'):
@@ -368,7 +375,10 @@ def main(argv=None):
             rc, out = build()
             if rc != 0 or re.search(r'^Error|\nError', out):
                 ctx.obligation_broken('coq build', out)
-        obl = check_obligations(ctx)
+        if a.sub:
+            obl = dict(theorems=[], discharged=0, assumptions={}, forbidden_scan=None)
+        else:
+            obl = check_obligations(ctx)
     t_build = time.time() - t0
     # property-specific streams and oracle
     try:
@@ -384,9 +394,10 @@ def main(argv=None):
         lines_out.append(f'KNOWN-FINDING: property={pid} {k["key"]} {k["what"]}')
     nviol = 0
     for v in ctx.violations[:5]:
-        p = write_replay(pid, f'input_{nviol}', dict(
+        p = write_replay(pid, f'{a.sub}input_{nviol}', dict(
             property=pid, kind='input', key=v['key'], what=v['what'],
-            case=v['case'], seed=a.seed, tier=a.tier))
+            case=v['case'], seed=a.seed, tier=a.tier,
+            hashseed=os.environ.get('PYTHONHASHSEED')))
         lines_out.append(f'VIOLATION property={pid} replay={p}')
         nviol += 1
         exit_code = 1
@@ -399,9 +410,10 @@ def main(argv=None):
             except Exception:  # noqa: B902
                 pass
         for v in ctx.violations[nviol:nviol + 3]:
-            p = write_replay(pid, f'input_{nviol}', dict(
+            p = write_replay(pid, f'{a.sub}input_{nviol}', dict(
                 property=pid, kind='input', key=v['key'], what=v['what'],
-                case=v['case'], seed=a.seed, tier=a.tier))
+                case=v['case'], seed=a.seed, tier=a.tier,
+                hashseed=os.environ.get('PYTHONHASHSEED')))
             lines_out.append(f'VIOLATION property={pid} replay={p}')
             nviol += 1
             exit_code = 1
@@ -418,7 +430,7 @@ def main(argv=None):
                 difference=S.explain(s.expect[j] if j < len(s.expect) else None,
                                      g[j] if j < len(g) else None),
                 shrunk_case=small, shrunk=ok))
-        name = 'correspondence' if mism else 'obligation'
+        name = a.sub + ('correspondence' if mism else 'obligation')
         p = write_replay(pid, name, payload)
         lines_out.append(
             f'VIOLATION property={pid} replay={p} no-failing-input-found')
@@ -427,6 +439,37 @@ def main(argv=None):
         # a failing input was found; still record what broke
         write_replay(pid, 'broken', dict(property=pid, broken=ctx.broken,
                                          mismatches=len(mism)))
+    # ---- the same streams under other hash seeds (set/dict iteration orders of the
+    # implementation change: sifting visits the variables in set order) ----
+    hash_runs = []
+    if a.tier == 'thorough' and pid in HASHSEED_PROPS and not a.sub:
+        import subprocess
+        for hs in (1, 2, 3):
+            env = dict(os.environ, PYTHONHASHSEED=str(hs))
+            q = subprocess.run([sys.executable, '-W', 'ignore', '-c',
+                                'import sys; from harness.framework import main; sys.exit(main())',
+                                pid, '--tier', 'quick', '--seed', str(1000 + hs), '--no-build',
+                                '--sub', f'hs{hs}_'],
+                               env=env, capture_output=True, text=True, timeout=7200)
+            outl = [l for l in q.stdout.split('\n') if l.strip()]
+            hash_runs.append(dict(hashseed=hs, exit=q.returncode, summary=outl[-1] if outl else q.stderr[-300:]))
+            for l in outl:
+                if l.startswith('VIOLATION'):
+                    lines_out.append(l)
+                    exit_code = 1
+                    nviol += 1
+                elif l.startswith('KNOWN-FINDING') and l not in lines_out:
+                    lines_out.append(l)
+            if q.returncode not in (0, 1):
+                lines_out.append(f'VIOLATION property={pid} replay={write_replay(pid, f"hs{hs}_crash", dict(property=pid, kind="obligation", stderr=q.stderr[-3000:]))} no-failing-input-found')
+                exit_code = 1
+    if a.sub:
+        for l in lines_out:
+            print(l)
+        print(f'{pid} sub-run hashseed={os.environ.get("PYTHONHASHSEED")}: sessions={len(ctx.sessions)} '
+              f'lines={ctx.stats.get("model_lines_compared", 0)} evaluations={ctx.evaluations} '
+              f'mismatches={len(mism)} violations={nviol} exit={exit_code}')
+        return exit_code
     # ---- evidence ----
     wall = time.time() - t0
     cov = dict(
@@ -450,6 +493,7 @@ def main(argv=None):
         histogram={k: v for k, v in sorted(ctx.stats.items())},
         exhaustive=bool(getattr(mod, 'EXHAUSTIVE', {}).get(a.tier, False)),
         build_s=round(t_build, 1),
+        hash_seed_runs=hash_runs,
     )
     ev = dict(property_id=pid, tier=a.tier, seed=a.seed, level='proof',
               coverage=cov, assumptions=list(getattr(mod, 'ASSUMES', [])),
